@@ -26,19 +26,21 @@ Verdict(r) ==
     LET a == r.att
         N == Len(a)
     IN  \* every accepted step's error estimate is below the tolerance unless the retry budget was exhausted
-        V(\A k \in 1 .. N : ~ a[k].restart => (a[k].est_lt_tol \/ Rejected(a, k - 1) >= r.max_restarts), "adapt.accepted_within_tolerance")
+        V(~ r.full \/ \A k \in 1 .. N : ~ a[k].restart => (a[k].est_lt_tol \/ Rejected(a, k - 1) >= r.max_restarts), "adapt.accepted_within_tolerance")
         \* an estimate at or above the tolerance leads to a restart while the budget lasts
-   \cup V(\A k \in 1 .. N : (~ a[k].est_lt_tol /\ Rejected(a, k - 1) < r.max_restarts) => a[k].restart, "adapt.restart_iff_estimate_too_large")
+   \cup V(~ r.full \/ \A k \in 1 .. N : (~ a[k].est_lt_tol /\ Rejected(a, k - 1) < r.max_restarts) => a[k].restart, "adapt.restart_iff_estimate_too_large")
         \* proposal = beta*dt*(tol/err)^(1/order) ...
-   \cup V(\A k \in 1 .. N : a[k].formula_ok, "adapt.proposal_formula")
+   \cup V(~ r.full \/ \A k \in 1 .. N : a[k].formula_ok, "adapt.proposal_formula")
         \* ... clipped to the configured absolute and slope limits, limits applied after the proposal
-   \cup V(\A k \in 1 .. N : a[k].clip_ok, "adapt.limits")
+   \cup V(~ r.full \/ \A k \in 1 .. N : a[k].clip_ok, "adapt.limits")
         \* a rejected step is retried from the same start with a smaller step unless a lower limit binds
    \cup V(\A k \in 1 .. N - 1 : a[k].restart => a[k + 1].t = a[k].t, "adapt.retry_from_same_start")
-   \cup V(\A k \in 1 .. N - 1 : a[k].restart => (a[k + 1].dt < a[k].dt \/ a[k].lower_limit_binds), "adapt.retry_smaller")
+        \* ... and from the same start VALUE (content id of u[0] when the attempt ended)
+   \cup V(\A k \in 1 .. N - 1 : a[k].restart => a[k + 1].u0 = a[k].u0, "adapt.retry_start_value")
+   \cup V(~ r.full \/ \A k \in 1 .. N - 1 : a[k].restart => (a[k + 1].dt < a[k].dt \/ a[k].lower_limit_binds), "adapt.retry_smaller")
         \* an accepted step is followed by a step starting at its end, with the step size that was announced
    \cup V(\A k \in 1 .. N - 1 : ~ a[k].restart => a[k + 1].t = a[k].e, "adapt.advance")
-   \cup V(\A k \in 1 .. N - 1 : a[k + 1].dt = a[k].dtnew \/ a[k].tend_binds, "adapt.announced_step_size_used")
+   \cup V(~ r.full \/ \A k \in 1 .. N - 1 : a[k + 1].dt = a[k].dtnew \/ a[k].tend_binds, "adapt.announced_step_size_used")
         \* the retry counter the code keeps equals the number of consecutive rejections
    \cup V(\A k \in 1 .. N : a[k].riar = Rejected(a, k - 1), "adapt.retry_counter")
         \* a run always advances or stops: never more than max_restarts consecutive rejections without an error
